@@ -77,6 +77,10 @@ pub fn scalar_of<S: PrimeField>(pat: &str, i: usize) -> S {
         }
         "dup_pairs" => pow3(1000 + (i / 2) as u64),
         "small" => S::from(((i * 7 + 3) % 11) as u64),
+        "byte_top" => S::from((128 + (i * 37) % 128) as u64),
+        "word_top" => S::from((65520 + i % 16) as u64),
+        "three_top" => S::from((16776960 + i % 251) as u64),
+        "short_mix" => S::from([200u64, 65520, 8388608, 5][i % 4]),
         _ => S::ONE,
     }
 }
